@@ -12,9 +12,10 @@ func (g *Gen) Idiom() *Program {
 		x, y = "y", "x"
 	}
 	k := int64(1 + g.R.Intn(3))
-	pick := g.R.Intn(52)
-	if g.Scopey && pick >= 46 {
-		pick = g.R.Intn(46) // the array-concatenation families belong to the C02 stream
+	pick := g.R.Intn(62)
+	if g.Scopey && ((pick >= 46 && pick < 52) || pick >= 58) {
+		// the array-concatenation, list-concatenation and float families belong to the C02 stream
+		pick = []int{24, 25, 26, 27, 52, 53, 54, 55}[g.R.Intn(8)]
 	}
 	if pick >= 31 && pick < 45 {
 		pick = 24 + (pick-31)%4 // the families added for independent seeds (rounds 2 and 3) get the unused slots
@@ -279,6 +280,170 @@ func (g *Gen) Idiom() *Program {
 			return &Program{Forms: []*Node{Def(y, Int(0)),
 				Defn("f", []string{x}, "", Set(y, CallN("+", CallN("*", Var(y), Int(10)), Var(x)))),
 				CallN("list", CallN("map", Var("f"), coll), Var(y))}}
+		}
+	case 52, 53:
+		// a free variable many hops up the closure parent chain (n textually nested fn levels, or callbacks
+		// created in argument positions); a same-named global must never be what the deep closure sees
+		n := 5 + g.R.Intn(9)
+		wrapCalls := func(e *Node, n int) *Node {
+			for i := 0; i < n; i++ {
+				e = Call(e)
+			}
+			return e
+		}
+		switch g.R.Intn(5) {
+		case 0: // curried: n closures returned one by one
+			body := Var(x)
+			for i := 0; i < n; i++ {
+				body = Fn(nil, "", body)
+			}
+			return &Program{Forms: []*Node{Def(x, Int(100)), Defn("f", []string{x}, "", body), wrapCalls(CallN("f", Int(k)), n)}}
+		case 1: // the deep closure assigns the captured parameter
+			body := Set(x, CallN("+", Var(x), Int(1)))
+			for i := 0; i < n; i++ {
+				body = Fn(nil, "", body)
+			}
+			return &Program{Forms: []*Node{Def(x, Int(100)),
+				Defn("f", []string{x}, "", wrapCalls(body, n), Var(x)), CallN("list", CallN("f", Int(k)), Var(x))}}
+		case 2: // immediately invoked at every level
+			body := CallN("+", Var(x), Var(y))
+			for i := 0; i < n; i++ {
+				body = Call(Fn(nil, "", body))
+			}
+			return &Program{Forms: []*Node{Def(x, Int(100)), Def(y, Int(1000)),
+				Defn("f", []string{x}, "", Let(false, []string{y}, []*Node{Int(k)}, body)), CallN("f", Int(7))}}
+		case 3: // callbacks created in argument positions
+			m := 3 + g.R.Intn(6)
+			body := Var(x)
+			for i := 0; i < m; i++ {
+				body = CallN("h", Fn(nil, "", body))
+			}
+			return &Program{Forms: []*Node{Def(x, Int(100)), Defn("h", []string{"g"}, "", CallN("g")),
+				Defn("f", []string{x}, "", body), CallN("f", Int(k))}}
+		default: // each level has its own parameter; the innermost lists the outermost and the nearest
+			body := CallN("list", Var(x), Var("p"))
+			for i := 0; i < n; i++ {
+				body = Fn([]string{"p"}, "", body)
+			}
+			call := CallN("f", Int(k))
+			for i := 0; i < n; i++ {
+				call = Call(call, Int(int64(i)))
+			}
+			return &Program{Forms: []*Node{Def(x, Int(100)), Def("p", Int(200)), Defn("f", []string{x}, "", body), call}}
+		}
+	case 54, 55:
+		// while-style loops (nil init clause): the loop still has a scope of its own, so a def in the body
+		// neither overwrites nor shadows an enclosing binding, and closures made in the body capture the loop's
+		test := CallN("<", Var("i"), Int(k))
+		step := Set("i", CallN("+", Var("i"), Int(1)))
+		switch g.R.Intn(5) {
+		case 0:
+			return &Program{Forms: []*Node{Def(x, Int(1)), Def("i", Int(0)),
+				For("", Nil(), test, step, Def(x, CallN("+", Var("i"), Int(10)))), Var(x)}}
+		case 1:
+			return &Program{Forms: []*Node{Defn("f", []string{x}, "", Def("i", Int(0)),
+				For("", Nil(), test, step, Def(x, Int(5)), Def(y, Int(6))), CallN("list", Var(x), Var("i"))),
+				Def(y, Int(50)), CallN("list", CallN("f", Int(1)), Var(y))}}
+		case 2:
+			return &Program{Forms: []*Node{Def("a", Arr()), Def("i", Int(0)),
+				For("", Nil(), test, step, Def(y, Var("i")), Set("a", CallN("append", Var("a"), Fn(nil, "", Var(y))))),
+				Def(y, Int(50)), CallN("map", Fn([]string{"g"}, "", CallN("g")), Var("a"))}}
+		case 3:
+			return &Program{Forms: []*Node{Def(x, Int(1)),
+				For("", Nil(), Bool(true), Nil(), Def(x, Int(k+4)), Break("")), Var(x)}}
+		default:
+			return &Program{Forms: []*Node{Def(x, Int(1)), Defn("f", nil, "", Var(x)),
+				Let(false, []string{"i"}, []*Node{Int(0)},
+					For("la", Nil(), test, step, Def(x, Int(9)), Def("f", Fn(nil, "", Int(77)))),
+					CallN("list", Var(x), CallN("f")))}}
+		}
+	case 56, 57:
+		// apply passes the VALUES of the argument array / list on: they are not evaluated again, and arrays
+		// among them keep their identity
+		switch g.R.Intn(7) {
+		case 0:
+			return &Program{Forms: []*Node{Def("a", Arr(Int(1), Int(2), Int(3))), CallN("apply", Var("aset"), Arr(Var("a"), Int(0), Int(k+8))), Var("a")}}
+		case 1:
+			args := Arr(Var("a"))
+			if g.R.Bool() {
+				args = CallN("list", Var("a"))
+			}
+			return &Program{Forms: []*Node{Def("a", Arr(Int(1), Int(2))), Defn("g", []string{"v"}, "", CallN("aset", Var("v"), Int(0), Int(k+8)), Var("v")),
+				Def("r", CallN("apply", Var("g"), args)), CallN("aset", Var("r"), Int(1), Int(7)), CallN("list", Var("a"), Var("r"))}}
+		case 2:
+			return &Program{Forms: []*Node{Def(x, Int(5)), CallN("apply", Var("list"), Arr(QuoteSym(x), QuoteSym("q")))}}
+		case 3:
+			return &Program{Forms: []*Node{CallN("apply", Var("first"),
+				Arr(Quote(&Datum{IsLst: true, List: []*Datum{{IsInt: true, I: 1}, {IsInt: true, I: 2}, {IsInt: true, I: k}}})))}}
+		case 4:
+			return &Program{Forms: []*Node{CallN("apply", Fn([]string{"p", "q"}, "", Var("q")),
+				CallN("list", Int(1), Quote(&Datum{IsLst: true, List: []*Datum{{Sym: "+"}, {IsInt: true, I: 1}, {IsInt: true, I: k}}})))}}
+		case 5:
+			return &Program{Forms: []*Node{Def(x, Int(5)), CallN("apply", Fn([]string{"p"}, "r", CallN("list", Var("p"), Var("r"))),
+				CallN("list", QuoteSym(x), Arr(Int(k)), Quote(&Datum{IsLst: true, List: []*Datum{{Sym: "trace"}, {IsInt: true, I: 1}}})))}}
+		default:
+			return &Program{Forms: []*Node{Def("a", Arr(Arr(Int(1)), Arr(Int(2)))),
+				CallN("apply", Fn([]string{"p", "q"}, "", CallN("aset", Var("p"), Int(0), Int(k+8)), CallN("aset", Var("q"), Int(0), Int(9))), Var("a")), Var("a")}}
+		}
+	case 58, 59:
+		// concat of lists: the elements of all lists in order; no argument list is changed (three and more
+		// lists, a list given twice, quoted literals in a function body or loop that runs again)
+		dl := func(xs ...int64) *Node {
+			d := &Datum{IsLst: true}
+			for _, v := range xs {
+				d.List = append(d.List, &Datum{IsInt: true, I: v})
+			}
+			return Quote(d)
+		}
+		switch g.R.Intn(7) {
+		case 0:
+			return &Program{Forms: []*Node{Def("a", dl(1, 2)), Def("b", dl(3, 4)), Def("c", CallN("list", Int(5), Int(k))),
+				Def("r", CallN("concat", Var("a"), Var("b"), Var("c"))), CallN("list", Var("r"), Var("a"), Var("b"), Var("c"))}}
+		case 1:
+			return &Program{Forms: []*Node{Defn("mk", []string{x}, "", CallN("concat", dl(1), dl(2), CallN("list", Var(x)))),
+				CallN("list", CallN("mk", Int(7)), CallN("mk", Int(k+7)), CallN("mk", Int(9)))}}
+		case 2:
+			return &Program{Forms: []*Node{Def("r", Nil()),
+				For("", Def("i", Int(0)), CallN("<", Var("i"), Int(k+1)), Set("i", CallN("+", Var("i"), Int(1))),
+					Set("r", CallN("concat", dl(0), dl(1, 2), dl(3), CallN("list", Var("i"))))), Var("r")}}
+		case 3:
+			return &Program{Forms: []*Node{Def("b", CallN("list", Int(3), Int(k))), Def("r", CallN("concat", CallN("list", Int(1)), Var("b"), Var("b"))),
+				CallN("list", CallN("len", Var("r")), Var("b"), CallN("len", Var("b")))}}
+		case 4:
+			return &Program{Forms: []*Node{Def("a", dl(1)), Def("b", dl(2, 3)), Def("c", dl(4)), Def("d", dl(5, k)),
+				Def("r", CallN("concat", Var("a"), Var("b"), Var("c"), Var("d"))), Def("q", CallN("concat", Var("b"), Var("c"))),
+				CallN("list", Var("r"), Var("q"), Var("a"), Var("b"), Var("c"), Var("d"))}}
+		case 5:
+			return &Program{Forms: []*Node{Def("a", dl(1, 2)), CallN("list", CallN("concat", Var("a")), CallN("concat", Var("a"), Nil(), dl(k)),
+				CallN("concat", Var("a"), Var("a")), Var("a"))}}
+		default:
+			return &Program{Forms: []*Node{Def("a", dl(1, 2)), CallN("trace", Var("a")),
+				CallN("concat", Var("a"), []*Node{Int(k), Arr(Int(1)), CallN("cons", Int(1), Int(2)), Str("ab")}[g.R.Intn(4)], dl(3))}}
+		}
+	case 60, 61:
+		// every float is true, also 0.0: cond predicate, and/or (which return the deciding value), not,
+		// the test of a for loop; through variables, parameters and elements of lists
+		f := Flt([]int64{0, 0, 0, 1, -3, 4}[g.R.Intn(6)])
+		switch g.R.Intn(7) {
+		case 0:
+			return &Program{Forms: []*Node{CallN("list", Cond(f, Int(1), Int(2)), And(f, Int(7)), Or(f, Int(7)), CallN("not", f))}}
+		case 1:
+			return &Program{Forms: []*Node{CallN("list", And(Int(1), f, Int(7)), Or(Bool(false), f, Int(7)), And(f), Or(Nil(), f))}}
+		case 2:
+			return &Program{Forms: []*Node{Def(x, f), Cond(Var(x), CallN("trace", Int(1)), CallN("trace", Int(2))), Var(x)}}
+		case 3:
+			return &Program{Forms: []*Node{Def("n", Int(0)),
+				For("", Def("i", Int(0)), f, Set("i", CallN("+", Var("i"), Int(1))),
+					Set("n", CallN("+", Var("n"), Int(1))), Cond(CallN(">", Var("i"), Int(k)), Break(""), Nil())), Var("n")}}
+		case 4:
+			return &Program{Forms: []*Node{Defn("t", []string{"v"}, "", Cond(Var("v"), Int(1), Int(0))),
+				CallN("map", Var("t"), CallN("list", f, Int(0), Flt(1), Nil(), Bool(false), Str(""), Flt(0)))}}
+		case 5:
+			return &Program{Forms: []*Node{Def("a", Arr(f, Flt(3))), Cond(CallN("aget", Var("a"), Int(0)), Int(k), Int(k+10)),
+				CallN("list", CallN("not", CallN("first", Var("a"))), Var("a"))}}
+		default:
+			return &Program{Forms: []*Node{Defn("g", []string{"p"}, "r", Or(And(Var("p"), CallN("trace", Int(1))), CallN("trace", Int(2)))),
+				CallN("list", CallN("g", f), CallN("g", Int(0)), CallN("apply", Var("g"), Arr(f)))}}
 		}
 	case 46, 47, 48:
 		// two concats onto the SAME array, then the first result is inspected; the array comes from append
